@@ -26,7 +26,7 @@ fn hist_prop() -> HistProp {
     opts.universe_probe = false;
     HistProp {
         opts,
-        cfgs: || cfg_strategy(2),
+        cfgs: || crate::gen::with_emb(cfg_strategy(2)),
         max_ops: 40,
         max_prepop: 8,
         cases_quick: 3000,
@@ -302,6 +302,9 @@ pub fn run(ctx: &RunCtx) -> i32 {
                 Ok(res) => {
                     if counting {
                         st.label("hist_cases");
+                        if case.cfg.contains_emb() {
+                            st.label("stack_with_embedded_lower_layer");
+                        }
                         st.label_n("hist_ops", res.summary.executed as u64);
                         let root_mut = res.trace.iter().any(|t| t.contains("('')") && !t.starts_with("exists") && !t.starts_with("read") && !t.starts_with("is_") && !t.starts_with("metadata") && !t.starts_with("walk"));
                         if root_mut {
